@@ -513,10 +513,61 @@ fn protect_item_start(text: &str) -> String {
     if matches!(after(0), Some('-') | Some('+') | Some('*')) && ends_marker(1) {
         return format!("\\{}", text);
     }
-    if text.starts_with('>') {
+    // a quote, a heading ("# of participants"), an html block ("<!-- draft --> Pricing"), a
+    // fence, a rule spelled with "_" or "*", a reference definition ("[Draft]: x")
+    let first_line = text.lines().next().unwrap_or_default();
+    let hashes = text.chars().take_while(|c| *c == '#').count();
+    let run = |c: char| text.chars().take_while(|x| *x == c).count();
+    let rule_like = first_line.len() >= 3
+        && (first_line.chars().all(|c| c == '_' || c == ' ')
+            || first_line.chars().all(|c| c == '*' || c == ' '));
+    let definition = text.starts_with('[')
+        && first_line
+            .find("]:")
+            .map_or(false, |n| !first_line[..n].contains(']'));
+    if text.starts_with('>')
+        || (hashes > 0 && hashes < 7 && ends_marker(hashes))
+        || starts_html_block(first_line)
+        || run('`') >= 3
+        || run('~') >= 3
+        || rule_like
+        || definition
+    {
         return format!("\\{}", text);
     }
     text.to_string()
+}
+
+// does the line open an html block (a comment, a block-level tag, a tag that stands alone)?
+// an inline tag in front of text ("<kbd>Ctrl</kbd> + C") does not
+fn starts_html_block(line: &str) -> bool {
+    const BLOCK_TAGS: [&str; 62] = [
+        "address", "article", "aside", "base", "basefont", "blockquote", "body", "caption",
+        "center", "col", "colgroup", "dd", "details", "dialog", "dir", "div", "dl", "dt",
+        "fieldset", "figcaption", "figure", "footer", "form", "frame", "frameset", "h1", "h2",
+        "h3", "h4", "h5", "h6", "head", "header", "hr", "html", "iframe", "legend", "li", "link",
+        "main", "menu", "menuitem", "nav", "noframes", "ol", "optgroup", "option", "p", "param",
+        "section", "summary", "table", "tbody", "td", "tfoot", "th", "thead", "title", "tr",
+        "track", "ul", "pre",
+    ];
+    if !line.starts_with('<') {
+        return false;
+    }
+    if line.starts_with("<!") || line.starts_with("<?") {
+        return true;
+    }
+    let name = line[1..]
+        .trim_start_matches('/')
+        .chars()
+        .take_while(|c| c.is_ascii_alphanumeric())
+        .collect::<String>()
+        .to_lowercase();
+    if BLOCK_TAGS.contains(&name.as_str()) || name == "script" || name == "style" || name == "textarea" {
+        return true;
+    }
+    // a single tag that is all there is on the line
+    let line = line.trim_end();
+    !name.is_empty() && line.ends_with('>') && line.matches('<').count() == 1
 }
 
 fn has_image(inlines: &GraphInlines) -> bool {
